@@ -1,4 +1,5 @@
 import Qryn.Proofs.Closed
+import Qryn.Proofs.RawAtoms
 import Qryn.LogQL.Planner
 /-! C10: the atoms of the LogQL planner model `planLog` are well formed (`wfSel`), given that the non-constant
     atoms are: table names, the rendered numbers, the `subsel_<k>` aliases, label names. -/
@@ -164,5 +165,71 @@ theorem wf_planLog (c : Ctx) (q : LogQuery) (ha : AtomsOK c q) (hq : QueryOK q) 
     simp only [planLog, dirOf, simpleCol, wfSel, wfSelBody, wfExprs, wfExpr, wfJoins, hw, hd, if_true, if_false, Bool.and_eq_true, Bool.and_true,
       Alias.text] <;>
     decide +kernel
+
+/-! ### the number hypotheses discharged for all numbers (`Proofs/RawAtoms.lean`): what remains are the table
+    names (configuration) and the label names (restricted by the LogQL lexer) -/
+
+/-- the four table names of the context are closed text (configuration, not request text) -/
+structure TablesOK (c : Ctx) : Prop where
+  gin : rawE (b c.ginTable) = true
+  samples : rawE (b c.samplesTable) = true
+  ts : rawE (b c.tsTable) = true
+  tsDist : rawE (b c.tsDistTable) = true
+
+theorem shiftsOK_all (i n : Nat) : shiftsOK i n := fun j _ _ => by
+  have := rawC_wrap (x := b "), ") (y := natDigits j) (z := b ")") kw_closeComma (rawE_natDigits j) kw_close
+  simpa using this
+
+theorem atomsOK_of_tables (c : Ctx) (q : LogQuery) (h : TablesOK c) : AtomsOK c q :=
+  ⟨h.gin, h.samples, h.ts, h.tsDist, rawE_intText _, rawE_intText _, rawE_intText _, rawE_intText _, rawE_intText _,
+   shiftsOK_all _ _⟩
+
+/-- the class of the LogQL `LabelName` token (`Label_name | Macros_function`, regenerated in `Gen.Lexers`) -/
+def LabelClass (s : String) : Prop :=
+  ∀ d ∈ b s, inRanges Gen.logqlLabelName d = true ∨ inRanges Gen.logqlMacrosFunction d = true
+
+theorem logqlClass_litSafe : ∀ c : UInt8,
+    (inRanges Gen.logqlLabelName c = true ∨ inRanges Gen.logqlMacrosFunction c = true) → litSafe c = true := by
+  apply forall_byte_of_lt; decide +kernel
+
+theorem LabelClass.litSafe {s : String} (h : LabelClass s) : (b s).all litSafe = true := by
+  simp only [List.all_eq_true]
+  exact fun d hd => logqlClass_litSafe d (h d hd)
+
+/-- every label name of a label filter is a `LabelName` token -/
+def condNamesOK : LabelCond → Prop
+  | .str l _ _ => LabelClass l
+  | .num l _ _ => LabelClass l
+  | .and l r => condNamesOK l ∧ condNamesOK r
+  | .or l r => condNamesOK l ∧ condNamesOK r
+
+theorem allWord_numText (v : NumLit) : allWord (b (numText v)) = true := by
+  unfold numText
+  simp only [b_append]
+  exact allWord_append (allWord_append (allWord_natDigits _) (by rw [b_dot]; decide)) (allWord_joinNats _)
+
+theorem condOK_of_names : ∀ lc : LabelCond, condNamesOK lc → condOK lc
+  | .str _ _ _, h => LabelClass.litSafe h
+  | .num _ _ v, h => ⟨LabelClass.litSafe h, rawE_word (allWord_numText v)⟩
+  | .and l r, h => ⟨condOK_of_names l h.1, condOK_of_names r h.2⟩
+  | .or l r, h => ⟨condOK_of_names l h.1, condOK_of_names r h.2⟩
+
+theorem b_subsel : b "subsel_" ≠ [] := by decide +kernel
+theorem allWord_subsel : allWord (b "subsel_") = true := by decide +kernel
+
+theorem allWord_subText (j : Nat) : allWord (b (Alias.sub j).text) = true := by
+  simp only [Alias.text, b_append]
+  exact allWord_append allWord_subsel (allWord_natDigits j)
+
+theorem subText_ne_nil (j : Nat) : b (Alias.sub j).text ≠ [] := by
+  simp only [Alias.text, b_append]
+  intro h
+  exact b_subsel (List.append_eq_nil_iff.mp h).1
+
+theorem subsOK_all (k n : Nat) : subsOK k n := fun j _ _ =>
+  ⟨rawE_word (allWord_subText j), rawC_append (rawC_word (allWord_subText j) (subText_ne_nil j)) kw_asOpen⟩
+
+theorem queryOK_of_names (q : LogQuery) (h : ∀ lc ∈ labelConds q, condNamesOK lc) : QueryOK q :=
+  ⟨fun lc hlc => condOK_of_names lc (h lc hlc), subsOK_all _ _⟩
 
 end Qryn.LogQL
